@@ -132,7 +132,7 @@ def check_stmt(job: tuple) -> list[dict]:
     size_check("plain", base, stmt)
     # label variants: every expression position, forward and backward, against the numeric twin
     phs = sorted(set(PH.findall(stmt)))
-    consts = [] if phs else sorted(set(re.findall(r"(?<![\w])0x[0-9A-Fa-f]+|(?<![\w])\d+", stmt)))[:2]
+    consts = [] if phs or stmt.lower().startswith(("defm", "defs")) else sorted(set(re.findall(r"(?<![\w])0x[0-9A-Fa-f]+|(?<![\w])\d+", stmt)))[:2]
     for ph in phs + consts:
         st_lbl = re.sub(r"(?<![\w])" + re.escape(ph) + r"(?![\w])", "LBL", stmt, count=1)
         st_num = re.sub(r"(?<![\w])" + re.escape(ph) + r"(?![\w])", f"0x{LBL_ADDR:X}", stmt, count=1)
@@ -174,7 +174,8 @@ def near_jobs(job: tuple) -> list[dict]:
     same = _run(aa, f".ORG 0x30100\nT: NOP\n {mn} T\n", {})
     other = _run(aa, f".ORG 0x30100\n {mn} T\n.ORG 0x40000\nT: NOP\n", {})
     lit = _run(aa, f".ORG 0x30100\n {mn} 0x0104\n", {})
-    for tag, r in (("same", same), ("other", other), ("lit", lit)):
+    low = _run(aa, f".ORG 0x0100\nT: NOP\n.ORG 0x30100\n {mn} T\n", {})
+    for tag, r in (("same", same), ("other", other), ("lit", lit), ("low", low)):
         if r["status"] == "unknown":
             return [{"mn": mn, "verdict": "unknown", "detail": r["exc"]}]
     if is_near:
@@ -189,6 +190,8 @@ def near_jobs(job: tuple) -> list[dict]:
             out.append({"mn": mn, "verdict": "near", "detail": f"{mn} to a label on another 64 KiB page (0x40000 from 0x30100) is accepted"})
         elif "page" not in other["msg"]:
             out.append({"mn": mn, "verdict": "near", "detail": f"{mn} to another page fails for an unrelated reason: {other['msg'][:100]}"})
+        if low["status"] == "ok":
+            out.append({"mn": mn, "verdict": "near", "detail": f"{mn} to a label on page 0 (0x00100) from page 3 is accepted: the low 16 bits reach 0x30100, not the label"})
         if lit["status"] != "ok":
             out.append({"mn": mn, "verdict": "near", "detail": f"{mn} 0x0104 (explicit low-16 operand) on page 3 is rejected: {lit['msg'][:100]}"})
     else:
@@ -281,6 +284,8 @@ def statements(ctx: Ctx, py: PyProgram) -> None:
         jobs.append(("data", d, (("0x9A01", _symw(width)),)))
     jobs.append(("data", "defs 5", ()))
     jobs.append(("data", 'defm "hello"', ()))
+    jobs.append(("data", 'defm "A\\r\\n"', ()))
+    jobs.append(("data", 'defm "tab\\tq\\x41\\0"', ()))
     jobs.append(("data", "defs 1", ()))
     rows = isa.py_rows(py)
     near = sorted({(r.name + (r.cond or "")).upper() for r in rows.values() if r.cls in ("CALL", "JP_Abs") and len(r.ops) == 1 and r.ops[0].ctor == "Imm16"})
